@@ -5,6 +5,9 @@ import (
 	"go/ast"
 	"go/token"
 	"hash/crc32"
+	"io/fs"
+	"path/filepath"
+	"sort"
 	"strings"
 )
 
@@ -189,6 +192,7 @@ func extractC21(repo string) (string, error) {
 		{"pkg/cluster/routing/router.go", "HashSlotForKey", "routerHashSlot"},
 		{"pkg/hashslot/hashslottable.go", "HashSlotForKey", "tableHashSlot"},
 		{"internal/bench/workload/group.go", "physicalHashSlotForKey", "benchHashSlot"},
+		{"internal/bench/chatlifecycle/lifecycle_proof.go", "lifecycleHashSlotForKey", "lifecycleHashSlot"},
 	}
 	calls := map[string]string{
 		"checksumIEEEString(KEY)":        "router",
@@ -288,7 +292,169 @@ func extractC21(repo string) (string, error) {
 		}
 	}
 	b.WriteString("\n]\n\n")
+	// 6. repository-wide: every non-test function that reduces an IEEE checksum with `%` (a hash-slot
+	//    style mapping).  A new mapping function that is not one of the translated sites changes this list.
+	mods, err := c21CrcModFuncs(repo)
+	if err != nil {
+		return "", err
+	}
+	b.WriteString("/-- (file, function) of every non-test function of the repository whose body contains `<expr with an IEEE checksum call> % …`, sorted -/\ndef crcModFuncs : List (String × String) := [\n")
+	for i, m := range mods {
+		sep := ","
+		if i == len(mods)-1 {
+			sep = ""
+		}
+		fmt.Fprintf(&b, "  (%s, %s)%s\n", leanStr(m[0]), leanStr(m[1]), sep)
+	}
+	b.WriteString("]\n\n")
+	// 7. pkg/slot/proxy hashSlotForKey(cluster any, key): never computes a slot itself; every non-zero
+	//    return is `<x>.HashSlotForKey(key)` on the value type-asserted from `cluster`
+	_, f, err = parseFile(repo, "pkg/slot/proxy/hashslot_compat.go")
+	if err != nil {
+		return "", err
+	}
+	pf := findFunc(f, "hashSlotForKey")
+	if pf == nil {
+		return "", fmt.Errorf("hashslot_compat.go: hashSlotForKey not found")
+	}
+	var pnames []string
+	for _, p := range pf.Type.Params.List {
+		for _, n := range p.Names {
+			pnames = append(pnames, n.Name)
+		}
+	}
+	pdeleg, pzero, pother, parith := 0, 0, 0, 0
+	if len(pnames) == 2 {
+		asserted := map[string]bool{}
+		ast.Inspect(pf.Body, func(n ast.Node) bool {
+			switch x := n.(type) {
+			case *ast.AssignStmt:
+				if len(x.Rhs) == 1 && len(x.Lhs) >= 1 {
+					if ta, ok := x.Rhs[0].(*ast.TypeAssertExpr); ok && exprText(ta.X) == pnames[0] {
+						asserted[exprText(x.Lhs[0])] = true
+					}
+				}
+			case *ast.BinaryExpr:
+				switch x.Op {
+				case token.REM, token.QUO, token.AND, token.SHR, token.SHL, token.XOR, token.ADD, token.SUB, token.MUL:
+					parith++
+				}
+			case *ast.ReturnStmt:
+				if len(x.Results) != 1 {
+					pother++
+					break
+				}
+				t := exprText(x.Results[0])
+				if t == "0" {
+					pzero++
+				} else if c, ok := x.Results[0].(*ast.CallExpr); ok {
+					if se, ok := c.Fun.(*ast.SelectorExpr); ok && se.Sel.Name == "HashSlotForKey" && asserted[exprText(se.X)] && len(c.Args) == 1 && exprText(c.Args[0]) == pnames[1] {
+						pdeleg++
+					} else {
+						pother++
+					}
+				} else {
+					pother++
+				}
+			}
+			return true
+		})
+	}
+	fmt.Fprintf(&b, "/-- pkg/slot/proxy hashSlotForKey: no arithmetic, every return is `0` (no keyer) or `<asserted cluster>.HashSlotForKey(key)` -/\ndef proxyDelegatesToKeyer : Bool := %v\n\n", len(pnames) == 2 && pdeleg == 1 && pother == 0 && parith == 0)
 	b.WriteString("end WK.Gen.C21\n")
 	return b.String(), nil
 }
 
+
+
+// c21CrcModFuncs walks every non-test Go file of the repository and lists the functions that reduce an
+// IEEE CRC-32 (stdlib ChecksumIEEE / Checksum / the router's checksumIEEEString) with the `%` operator.
+func c21CrcModFuncs(repo string) ([][2]string, error) {
+	var out [][2]string
+	isCrc := func(e ast.Expr) bool {
+		hit := false
+		ast.Inspect(e, func(n ast.Node) bool {
+			if c, ok := n.(*ast.CallExpr); ok {
+				t := exprText(c.Fun)
+				if t == "crc32.ChecksumIEEE" || t == "crc32.Checksum" || t == "checksumIEEEString" || t == "crc32.Update" {
+					hit = true
+				}
+			}
+			return true
+		})
+		return hit
+	}
+	err := filepath.WalkDir(repo, func(path string, d fs.DirEntry, err error) error {
+		if err != nil {
+			return err
+		}
+		name := d.Name()
+		if d.IsDir() {
+			if path != repo && (strings.HasPrefix(name, ".") || name == "vendor" || name == "node_modules" || name == "testdata" || strings.HasPrefix(name, "zzverif")) {
+				return filepath.SkipDir
+			}
+			return nil
+		}
+		if !strings.HasSuffix(name, ".go") || strings.HasSuffix(name, "_test.go") || strings.HasPrefix(name, "zz_verif") {
+			return nil
+		}
+		rel, _ := filepath.Rel(repo, path)
+		_, f, perr := parseFile(repo, rel)
+		if perr != nil {
+			return nil // not our concern here: the Go build of the harness reports syntax errors
+		}
+		for _, dd := range f.Decls {
+			fd, ok := dd.(*ast.FuncDecl)
+			if !ok || fd.Body == nil {
+				continue
+			}
+			hit := false
+			// local variables assigned from a checksum expression count as checksums too
+			tainted := map[string]bool{}
+			ast.Inspect(fd.Body, func(n ast.Node) bool {
+				if as, ok := n.(*ast.AssignStmt); ok && len(as.Lhs) == len(as.Rhs) {
+					for i := range as.Lhs {
+						if id, ok := as.Lhs[i].(*ast.Ident); ok && isCrc(as.Rhs[i]) {
+							tainted[id.Name] = true
+						}
+					}
+				}
+				return true
+			})
+			usesTainted := func(e ast.Expr) bool {
+				u := false
+				ast.Inspect(e, func(n ast.Node) bool {
+					if id, ok := n.(*ast.Ident); ok && tainted[id.Name] {
+						u = true
+					}
+					return true
+				})
+				return u
+			}
+			ast.Inspect(fd.Body, func(n ast.Node) bool {
+				if be, ok := n.(*ast.BinaryExpr); ok && be.Op == token.REM && (isCrc(be.X) || usesTainted(be.X)) {
+					hit = true
+				}
+				return true
+			})
+			if hit {
+				fn := fd.Name.Name
+				if fd.Recv != nil && len(fd.Recv.List) == 1 {
+					fn = exprText(fd.Recv.List[0].Type) + "." + fn
+				}
+				out = append(out, [2]string{filepath.ToSlash(rel), fn})
+			}
+		}
+		return nil
+	})
+	if err != nil {
+		return nil, err
+	}
+	sort.Slice(out, func(i, j int) bool {
+		if out[i][0] != out[j][0] {
+			return out[i][0] < out[j][0]
+		}
+		return out[i][1] < out[j][1]
+	})
+	return out, nil
+}
